@@ -437,6 +437,21 @@ fn bad_or_good_sigs(
     sig_ok: bool,
     short: bool,
 ) -> (Signature, Vec<Signature>) {
+    if !sig_ok && !short && rng.chance(1, 4) {
+        // a replay: the counterparty's signatures on the CURRENT commitment (what the signer has
+        // stored), presented for this number and content
+        if let Some(e) = sys.estate() {
+            if let Some(cur) = e.current_holder_commit_info.as_ref() {
+                let cur_n = e.next_holder_commit_num.wrapping_sub(1);
+                let cur_id = content_id_of(cur, true);
+                if (cur_n, cur_id) != (n, id) {
+                    if let Some(st) = sys.cp_sigs(cur_n, cur_id) {
+                        return st;
+                    }
+                }
+            }
+        }
+    }
     match (sigs, sig_ok) {
         (Some(s), true) => s.clone(),
         (Some(s), false) if short => {
